@@ -60,4 +60,291 @@ theorem mem_setUser {cfg : Cfg} {st : St} {id : Nat} {u : C16.User} {p : Nat × 
       · exact Or.inr h
       · exact mem_putUser h
 
+/-! ## capability lists only shrink, except through the two granting commands -/
+
+/-- every capability in the new table was already held by the same account -/
+def Keeps (st st' : St) : Prop :=
+  ∀ p ∈ st'.users, ∀ x ∈ p.2.caps, ∃ u, (p.1, u) ∈ st.users ∧ x ∈ u.caps
+
+theorem keeps_of_users_eq {st st' : St} (h : st'.users = st.users) : Keeps st st' := by
+  intro p hp x hx
+  rw [h] at hp
+  exact ⟨p.2, hp, hx⟩
+
+theorem keeps_refl (st : St) : Keeps st st := keeps_of_users_eq rfl
+
+/-- how the capabilities of the record stored by `finishSet` relate to the old record -/
+theorem mem_finishSet {cfg : Cfg} {st : St} {id : Nat} {u' : C16.User} {p : Nat × C16.User}
+    (h : p ∈ (finishSet cfg st id u').1.users) : p = (id, u') ∨ p ∈ st.users := by
+  unfold finishSet at h
+  simp only [] at h
+  split at h
+  · exact mem_setUser h
+  · rcases mem_putUser h with h | h
+    · exact Or.inl h
+    · exact mem_setUser h
+
+theorem keeps_finishSet {cfg : Cfg} {st st0 : St} {id : Nat} {u u' : C16.User}
+    (hu : st.user id = some u) (h0 : st0.users = st.users) (hc : ∀ x ∈ u'.caps, x ∈ u.caps) :
+    Keeps st (finishSet cfg st0 id u').1 := by
+  intro p hp x hx
+  rcases mem_finishSet hp with rfl | hp
+  · exact ⟨u, user_mem hu, hc x hx⟩
+  · rw [h0] at hp
+    exact ⟨p.2, hp, hx⟩
+
+theorem withOther_ind {cfg : Cfg} {st : St} {name : Str} {f : Nat → C16.User → St × Bool}
+    (P : St × Bool → Prop) (h0 : P (st, false))
+    (h1 : ∀ id u, st.otherUser cfg name = some id → st.user id = some u → P (f id u)) :
+    P (withOther cfg st name f) := by
+  unfold withOther
+  split
+  · exact h0
+  · rename_i id hid
+    split
+    · exact h0
+    · rename_i u hu
+      exact h1 id u hid hu
+
+theorem withCaller_ind {st : St} {pfx : Str} {f : Nat → C16.User → St × Bool}
+    (P : St × Bool → Prop) (h0 : P (st, false))
+    (h1 : ∀ id u, st.user id = some u → P (f id u)) :
+    P (withCaller st pfx f) := by
+  unfold withCaller
+  split
+  · split
+    · rename_i u hu
+      exact h1 _ u hu
+    · exact h0
+  · exact h0
+
+/-- the two ways a capability can newly appear on account `id` -/
+def Granted (cfg : Cfg) (st : St) (pfx : Str) (c : Cmd) (id : Nat) (x : Str) : Prop :=
+  (∃ name cap0, c = .capAdd name cap0 ∧ st.otherUser cfg name = some id ∧ x = C03.toLower cap0 ∧
+      C03.strEqual (C03.toLower cap0) C03.ownerS = false ∧
+      (C03.isAntiCapability (C03.toLower cap0) = true ∨ st.check pfx (C03.toLower cap0) = some true)) ∨
+  (∃ chan name cap c1, c = .chanCapAdd chan name cap ∧ st.otherUser cfg name = some id ∧
+      st.opGuard pfx chan = true ∧ splitWs cap = [c1] ∧ x = C03.toLower (chan ++ ',' :: c1))
+
+/-- what `UserCapabilitySet.add` can put into a list -/
+theorem mem_uadd {caps caps' : List Str} {c x : Str} (h : C03.uadd caps c = .ok caps') (hx : x ∈ caps') :
+    x ∈ caps ∨ x = C03.toLower c := by
+  unfold C03.uadd at h
+  simp only [] at h
+  split at h
+  · cases h
+  · unfold C03.CapSet.add at h
+    simp only [] at h
+    split at h
+    · cases h
+    · injection h with h
+      subst h
+      rcases (C16.mem_capInsert _ _ _).mp hx with hx | hx
+      · right; rw [hx, C03.toLower_idem]
+      · left; exact ((C16.mem_capErase _ _ _).mp hx).1
+
+theorem mem_capRemove {caps caps' : List Str} {c x : Str} (h : C03.CapSet.remove caps c = .ok caps')
+    (hx : x ∈ caps') : x ∈ caps := by
+  unfold C03.CapSet.remove at h
+  simp only [] at h
+  split at h
+  · injection h with h
+    subst h
+    exact ((C16.mem_capErase _ _ _).mp hx).1
+  · cases h
+
+theorem keeps_setUser {cfg : Cfg} {st : St} {id : Nat} {u u' : C16.User}
+    (hu : st.user id = some u) (hc : ∀ x ∈ u'.caps, x ∈ u.caps) : Keeps st (st.setUser cfg id u').1 := by
+  intro p hp x hx
+  rcases mem_setUser hp with rfl | hp
+  · exact ⟨u, user_mem hu, hc x hx⟩
+  · exact ⟨p.2, hp, hx⟩
+
+theorem keeps_put_setUser {cfg : Cfg} {st : St} {id : Nat} {u u' u'' : C16.User}
+    (hu : st.user id = some u) (hc : ∀ x ∈ u'.caps, x ∈ u.caps) (hc' : ∀ x ∈ u''.caps, x ∈ u.caps) :
+    Keeps st (putUser (st.setUser cfg id u').1 id u'') := by
+  intro p hp x hx
+  rcases mem_putUser hp with rfl | hp
+  · exact ⟨u, user_mem hu, hc' x hx⟩
+  · exact keeps_setUser hu hc p hp x hx
+
+/-- closes the goals `Keeps st (…).1` that the case analysis of a command body produces -/
+macro "keeps_auto" hu:term : tactic => `(tactic|
+  ((repeat' split) <;>
+   (first
+    | exact keeps_refl _
+    | exact keeps_of_users_eq rfl
+    | exact keeps_finishSet $hu rfl (fun x hx => hx)
+    | exact keeps_finishSet $hu rfl (fun x hx => mem_capRemove (by assumption) hx)
+    | exact keeps_setUser $hu (fun x hx => hx)
+    | exact keeps_put_setUser $hu (fun x hx => hx) (fun x hx => hx)
+    | (intro p hp x hx; exact ⟨p.2, (List.mem_filter.mp hp).1, hx⟩))))
+
+/-- the new table after any command other than a reload: every capability was already there, or
+was granted by `capability add` under its guard -/
+theorem body_caps (cfg : Cfg) (st : St) (pfx : Str) (c : Cmd) (hc : c ≠ .flushReload) :
+    ∀ p ∈ (body cfg st pfx c).1.users, ∀ x ∈ p.2.caps,
+      (∃ u, (p.1, u) ∈ st.users ∧ x ∈ u.caps) ∨ Granted cfg st pfx c p.1 x := by
+  have lift : ∀ {st' : St}, Keeps st st' → ∀ p ∈ st'.users, ∀ x ∈ p.2.caps,
+      (∃ u, (p.1, u) ∈ st.users ∧ x ∈ u.caps) ∨ Granted cfg st pfx c p.1 x :=
+    fun hk p hp x hx => Or.inl (hk p hp x hx)
+  have triv : ∀ id : Nat, st.user id = st.user id := fun _ => rfl
+  cases c with
+  | flushReload => exact absurd rfl hc
+  | register name pw =>
+    apply lift
+    simp only [body, doRegister]
+    repeat' (first
+      | exact keeps_refl _
+      | (intro p hp x hx
+         simp only [List.mem_append, List.mem_singleton] at hp
+         rcases hp with hp | rfl
+         · exact ⟨p.2, hp, hx⟩
+         · simp at hx)
+      | split)
+  | unregister name pw =>
+    apply lift
+    simp only [body]
+    refine withOther_ind (fun r => Keeps st r.1) (keeps_refl st) ?_
+    intro id u _ hu
+    keeps_auto hu
+  | changename name newname pw =>
+    apply lift
+    simp only [body]
+    split
+    · exact keeps_refl st
+    · refine withOther_ind (fun r => Keeps st r.1) (keeps_refl st) ?_
+      intro id u _ hu
+      keeps_auto hu
+  | identify name pw =>
+    apply lift
+    simp only [body]
+    split
+    · exact keeps_refl st
+    · refine withOther_ind (fun r => Keeps st r.1) (keeps_refl st) ?_
+      intro id u _ hu
+      keeps_auto hu
+  | unidentify =>
+    apply lift
+    simp only [body]
+    refine withCaller_ind (fun r => Keeps st r.1) (keeps_refl st) ?_
+    intro id u hu
+    keeps_auto hu
+  | hostmaskAdd name hostmask pw =>
+    apply lift
+    simp only [body]
+    split
+    · exact keeps_refl st
+    · refine withOther_ind (fun r => Keeps st r.1) (keeps_refl st) ?_
+      intro id u _ hu
+      keeps_auto hu
+  | hostmaskRemove name hostmask pw =>
+    apply lift
+    simp only [body]
+    split
+    · exact keeps_refl st
+    · refine withOther_ind (fun r => Keeps st r.1) (keeps_refl st) ?_
+      intro id u _ hu
+      keeps_auto hu
+  | setPassword name old new =>
+    apply lift
+    simp only [body]
+    split
+    · exact keeps_refl st
+    · refine withOther_ind (fun r => Keeps st r.1) (keeps_refl st) ?_
+      intro id u _ hu
+      keeps_auto hu
+  | setSecure pw value =>
+    apply lift
+    simp only [body]
+    split
+    · exact keeps_refl st
+    · refine withCaller_ind (fun r => Keeps st r.1) (keeps_refl st) ?_
+      intro id u hu
+      keeps_auto hu
+  | capRemove name cap0 =>
+    apply lift
+    simp only [body]
+    refine withOther_ind (fun r => Keeps st r.1) (keeps_refl st) ?_
+    intro id u _ hu
+    keeps_auto hu
+  | chanCapRemove chan name cap =>
+    apply lift
+    simp only [body]
+    split
+    · exact keeps_refl st
+    · refine withOther_ind (fun r => Keeps st r.1) (keeps_refl st) ?_
+      intro id u _ hu
+      keeps_auto hu
+  | chanCapSet chan caps => apply lift; simp only [body]; keeps_auto (triv 0)
+  | chanCapUnset chan caps => apply lift; simp only [body]; keeps_auto (triv 0)
+  | chanSetDefault chan v => apply lift; simp only [body]; keeps_auto (triv 0)
+  | ignoreAdd h0 => apply lift; simp only [body]; keeps_auto (triv 0)
+  | ignoreRemove h0 => apply lift; simp only [body]; keeps_auto (triv 0)
+  | defaultCapAdd cap => apply lift; simp only [body]; keeps_auto (triv 0)
+  | defaultCapRemove cap => apply lift; simp only [body]; keeps_auto (triv 0)
+  | configCaps v => apply lift; simp only [body]; keeps_auto (triv 0)
+  | capAdd name cap0 =>
+    simp only [body]
+    refine withOther_ind (fun r => ∀ p ∈ r.1.users, ∀ x ∈ p.2.caps,
+      (∃ u, (p.1, u) ∈ st.users ∧ x ∈ u.caps) ∨ Granted cfg st pfx (.capAdd name cap0) p.1 x)
+      (lift (keeps_refl st)) ?_
+    intro id u hid hu
+    split
+    · exact lift (keeps_refl st)
+    · rename_i hne
+      split
+      · rename_i hent
+        split
+        · rename_i caps' hadd
+          intro p hp x hx
+          rcases mem_finishSet hp with rfl | hp
+          · rcases mem_uadd hadd hx with hx | hx
+            · exact Or.inl ⟨u, user_mem hu, hx⟩
+            · right; left
+              refine ⟨name, cap0, rfl, hid, ?_, by simpa using hne, ?_⟩
+              · rw [hx, C03.toLower_idem]
+              · by_cases ha : C03.isAntiCapability (C03.toLower cap0) = true
+                · exact Or.inl ha
+                · simp only [ha] at hent
+                  exact Or.inr (by simpa using hent)
+          · exact Or.inl ⟨p.2, hp, hx⟩
+        · exact lift (keeps_refl st)
+      · exact lift (keeps_refl st)
+  | chanCapAdd chan name cap =>
+    simp only [body]
+    split
+    · exact lift (keeps_refl st)
+    · rename_i hop
+      refine withOther_ind (fun r => ∀ p ∈ r.1.users, ∀ x ∈ p.2.caps,
+        (∃ u, (p.1, u) ∈ st.users ∧ x ∈ u.caps) ∨ Granted cfg st pfx (.chanCapAdd chan name cap) p.1 x)
+        (lift (keeps_refl st)) ?_
+      intro id u hid hu
+      split
+      · exact lift (keeps_refl st)
+      · split
+        · rename_i c1 hsplit
+          split
+          · exact lift (keeps_refl st)
+          · rename_i cc hcc
+            split
+            · exact lift (keeps_refl st)
+            · rename_i caps' hadd
+              intro p hp x hx
+              rcases mem_finishSet hp with rfl | hp
+              · rcases mem_uadd hadd hx with hx | hx
+                · exact Or.inl ⟨u, user_mem hu, hx⟩
+                · right; right
+                  refine ⟨chan, name, cap, c1, rfl, hid, by simpa using hop, hsplit, ?_⟩
+                  have : cc = chan ++ ',' :: c1 := by
+                    unfold C03.makeChannelCapability at hcc
+                    split at hcc
+                    · cases hcc
+                    · split at hcc
+                      · cases hcc
+                      · injection hcc with hcc; exact hcc.symm
+                  rw [hx, this]
+              · exact Or.inl ⟨p.2, hp, hx⟩
+        · exact lift (keeps_refl st)
+
 end C02
